@@ -39,7 +39,7 @@ CFG = {
                   "(Witness/F111.lean keeps the old loop and shows both behaviours). Known findings: F111b (a struct-literal child reaching beyond its parent's right edge accepts a wide cluster on the parent's last column — "
                   "hypothesis rightNested of text_extent_clip, shown necessary; left to the application as window.go documents) and F111c (Wrap's line segmentation can end inside a grapheme cluster: a flag that begins a later "
                   "Segment, space + combining mark; new oracle 'clusters of the line segments = clusters of the Segment text'). Validated by correspondence only: that the Lean transcription of the loops equals the Go loops "
-                  "beyond their pinned statement structure. SetCell/Fill of a wide cell on a window's last column is outside the spill oracle.",
+                  "beyond their pinned statement structure. The spill oracle covers the four text helpers and SetCell/Fill (F111b is the general form: SetCell looks at the cell's column only).",
     "technique": "Lean 4 proof (induction on the parent chain / on the text) + extractor + differential correspondence",
     "timeout": 900,
 }
